@@ -352,3 +352,7 @@ def run(ctx, cfg=CFG):
     r3_bookkeeping(ctx, cfg)
     r4_sniff_order(ctx, cfg)
     r5_latest_wins(ctx, cfg)
+
+
+from .selftest import for_families as _ff  # noqa: E402
+selftest = _ff(['gate', 'slice'])
